@@ -91,7 +91,7 @@ PROPS["C16"] = dict(
     functions=["mem::MemoryAreas::run_clock_cycles", "mem::memory_write_byte (0xff46 arm)", "mem::DMAState"],
     bounds={"quick": "arming from any in-progress state, all 256 pages; transaction contract from any (page, offset): batches of <= 8 bytes, and ANY batch size < 2^24 clocks "
                      "when <= 8 bytes remain; two-batch split a+b <= 8; idle engine any batch size. The contract is additive in the byte count, so longer transfers follow by induction on batches",
-            "thorough": "plus batches of <= 18 bytes and a cross-check through the real bus ladder (page 0xC1, <= 2 bytes at any offset, arbitrary probe address)"},
+            "thorough": "plus batches of <= 18 bytes and a cross-check through the real bus ladder (page 0xC1, <= 2 bytes at offsets 0..=3, arbitrary probe address)"},
     outside=["CPU-side bus restrictions during DMA (not in the statement)", "what the copied bytes mean: reads/writes at those addresses are C10's subject (recording bus returns arbitrary values)"],
     stubs=CTOR_STUBS + ["mem::memory_read_byte / memory_write_byte -> recording bus (arbitrary read values, event log) in the transaction harnesses",
                         "IO::run_clock_cycles -> no-op (devices do not take part in the copy)"],
